@@ -231,6 +231,8 @@ def one(ctx: Ctx, cs, n_triples=110):
         ctx.mon('combined_exports')
         ctx.mon(f'enc:{enc}')
         out, err = kpx.dumps(d, **kw)
+        # an options object with the same content, reused for every combination and document of the run, is one more form of the same options
+        kpx.shared_options_check(ctx, d, kw, out, err, c2)
         if needs_clef_error(ag, cx, sel, keep, enc):
             # a selected note without clef in force under an agnostic encoding: undefined by the property, counted only
             ctx.mon('clefless_agnostic_cases (undefined by the property)')
